@@ -19,6 +19,7 @@ RULE = ("v1: VERSION x SECURITY x ENCODINGxCHARSET x COMPRESSION present/absent 
         "x line breaks {none, LF, CRLF} after each declaration x versions; bodies: rendered random trees whose text contains characters "
         "that differ between cp1252 / latin-1 / UTF-8 where the header names a character set. Thorough enumerates the full layout product. "
         "15% of the files are handed over right after a broken file (truncated inside a multi-byte character, bad header, empty) whose own outcome is not judged. A case = the file bytes; non-trivial = every case (header+body parsed and compared)")
+RULE += ' Added later: per header kind, seven files with the SAME header text and another number of blank lines in front, read in succession; UUID-like and number-like file UIDs.'
 ASSUMPTIONS = ["ref_header.py and ref_sgml.py are correct (self-tested)",
                "UNSPECIFIED, not judged: whitespace before the first '<' / after the last '>' of the returned body (compared after strip()); "
                "non-ASCII bytes under contradictory ENCODING/CHARSET pairs (only ASCII bodies there); bytes undefined in cp1252; blanks before <?xml"]
